@@ -498,6 +498,10 @@ func (e *SelectorExpr) End() Pos {
 }
 
 func (e *SelectorExpr) String() string {
+	if _, isInt := e.Expr.(*IntLit); isInt {
+		// "1.y" would be scanned as the float literal "1." followed by "y"
+		return "(" + e.Expr.String() + ")." + e.Sel.String()
+	}
 	return e.Expr.String() + "." + e.Sel.String()
 }
 
